@@ -423,7 +423,7 @@ pub fn expr_strategy() -> impl Strategy<Value = Expr> {
         "- 30 minutes", "* 2", "/ 4", "to date", "is what % of 80", "is 10% of what", "at 10:30", "to 1/1/2022",
     ])
     .prop_map(|s| s.to_string());
-    let prefix = prop::sample::select(vec!["10% of", "5% on", "20% off", "2 *", "100 +", "1000 -", "12/12/2020 +", "10:30 +", "$50 +", "10 km +"]).prop_map(|s| s.to_string());
+    let prefix = prop::sample::select(vec!["10% of", "5% on", "20% off", "2 *", "100 +", "1000 -", "12/12/2020 +", "10:30 +", "$50 +", "10 km +", "12/12/2020 at", "1 jan 2021 at"]).prop_map(|s| s.to_string());
     prop_oneof![
         3 => operand_strategy(5).prop_map(Expr::One),
         5 => (operand_strategy(5), op, operand_strategy(3)).prop_map(|(a, o, b)| Expr::Bin(a, o, b)),
